@@ -21,6 +21,20 @@ def ent(v, p, alias=None):
         if k == 'ref' and x[1][0][0] == 'loc' and x[1] in p.final.mem:
             x = strip_upd(p.final.mem[x[1]])
             continue
+        if k == 'ref' and x[1][0][0] == 'loc' and x[1][1] and (x[1][0], ()) in p.final.mem:
+            # a reference into a local (e.g. `&maybe_prev.Some.0`): the local's value with the projection applied
+            y = p.final.mem[(x[1][0], ())]
+            for pe in x[1][1]:
+                if pe[0] == 'v':
+                    y = ('variant', y, pe[1])
+                elif pe[0] == 'f':
+                    y = ('field', y, pe[1])
+                else:
+                    y = None
+                    break
+            if y is not None:
+                x = sym.simplify(y) if hasattr(sym, 'simplify') else y
+                continue
         if k in ('rcptr', 'refval'):
             x = strip_upd(x[1])
             continue
@@ -239,18 +253,86 @@ def check_loop(ctx, rep, rule_neigh='S-neigh', rule_recompute='S-recompute'):
     return b, ps
 
 
+class CannotEval(Exception):
+    pass
+
+
 def check_break(ctx, rep, rule='B-break'):
     """break iff (Intersection and event.x > min(sbbox.max.x, cbbox.max.x)) or (Difference and event.x > sbbox.max.x);
-    strict; the current event is pushed to sorted_events before the test; Union/Xor never stop early"""
+    strict; the current event is pushed to sorted_events before the test; Union/Xor never stop early.
+    The tests made between popping an event and looking at its left flag are *evaluated* for the four operations and all
+    orderings of (event.x, sbbox.max.x, cbbox.max.x) (27 weak orderings on {0,1,2}), so the form of the test (match, named
+    booleans, min() or an if) does not matter; a test on anything else is reported."""
+    import itertools
     b, ps = rep.explore(ctx, SUBDIVIDE, rule, opaque=OPAQUE)
     if b is None:
         return
-    n = 0
-    seen = set()
+    ops = ctx.facts().enum_variants('boolean::Operation') or ['Intersection', 'Difference', 'Union', 'Xor']
+
+    def ev(v, env, p, depth=0):
+        x = strip_upd(v)
+        k = x[0]
+        if depth > 40:
+            raise CannotEval('too deep')
+        if k == 'c':
+            c = x[1]
+            if isinstance(c, (bool, int)):
+                return c
+            if isinstance(c, tuple) and c[0] == 'enum':
+                return ('enum', c[2])
+            raise CannotEval(show(x)[:40])
+        if k == 'param' and x[2] == 'operation':
+            return ('enum', env['op'])
+        if k == 'agg' and x[1] == 'adt' and not x[4]:
+            return ('enum', x[2])
+        if k in ('refval', 'deref') and len(x) > 1 and strip_upd(x[1])[0] in ('ref', 'param', 'agg', 'c'):
+            return ev(x[1], env, p, depth + 1)
+        if k == 'ref' and x[1][0][0] == 'loc' and x[1] in p.final.mem:
+            return ev(p.final.mem[x[1]], env, p, depth + 1)
+        if k == 'discr':
+            val = ev(x[1], env, p, depth + 1)
+            if isinstance(val, tuple) and val[0] == 'enum' and val[1] in ops:
+                return ops.index(val[1])
+            raise CannotEval('discriminant of %s' % show(noepoch(x[1]))[:40])
+        if k == 'op':
+            if x[1] == 'not':
+                return not ev(x[2], env, p, depth + 1)
+            a, c = ev(x[2], env, p, depth + 1), ev(x[3], env, p, depth + 1)
+            f = {'gt': lambda: a > c, 'lt': lambda: a < c, 'ge': lambda: a >= c, 'le': lambda: a <= c, 'eq': lambda: a == c,
+                 'ne': lambda: a != c, 'bitand': lambda: bool(a) and bool(c), 'bitor': lambda: bool(a) or bool(c),
+                 'bitxor': lambda: bool(a) != bool(c)}.get(x[1])
+            if f is None:
+                raise CannotEval('operator %s' % x[1])
+            if x[1] in ('gt', 'lt', 'ge', 'le') and (isinstance(a, tuple) or isinstance(c, tuple)):
+                raise CannotEval('ordering of non-numbers')
+            return f()
+        if k in ('pcall', 'call') and re.search(r'Float::(min|max)$', x[1]) and len(x[2]) == 2:
+            a, c = ev(x[2][0], env, p, depth + 1), ev(x[2][1], env, p, depth + 1)
+            return min(a, c) if x[1].endswith('min') else max(a, c)
+        if k in ('pcall', 'call') and re.search(r'PartialEq(<[^>]*>)?>?::(eq|ne)$', x[1]) and len(x[2]) == 2:
+            a, c = ev(x[2][0], env, p, depth + 1), ev(x[2][1], env, p, depth + 1)
+            return (a == c) if x[1].endswith('eq') else (a != c)
+        nm = coord_name(x, p)
+        if nm in env:
+            return env[nm]
+        raise CannotEval(nm[:60])
+
+    def holds(cond, val):
+        if isinstance(val, tuple):
+            raise CannotEval('enum in a branch')
+        val = int(val)
+        if cond[0] == 'eq':
+            return val == int(cond[1])
+        if cond[0] == 'notin':
+            return val not in [int(z) for z in cond[1]]
+        raise CannotEval('condition %s' % (cond,))
+
+    prefixes = []
     for p in ps:
         brs = []
         pushed = False
         looked = False
+        got_event = False
         for e in p.events:
             if e.get('depth', 0) != 0:
                 continue
@@ -261,65 +343,59 @@ def check_break(ctx, rep, rule='B-break'):
                 if nm == 'event.left':
                     looked = True
                     break
+                if nm.startswith('has(') and not nm.startswith('has(other:'):
+                    if nm == 'has(event)' and is_true(e['cond']):
+                        got_event = True
+                    continue
                 brs.append((nm, e['cond'], e['val'], e['line']))
-        exits = (p.end == 'return') and not looked
-        conds = [(nm, c) for nm, c, _, _ in brs if not nm.startswith('has(')]
-        got_event = any(nm.startswith('has(') and is_true(c) for nm, c, _, _ in brs)
         if not got_event:
             continue
-        # classify comparisons
-        opv = {}
-        cmpv = {}
-        for nm, c, v, line in brs:
-            if nm.startswith('operation=='):
-                opv[nm.split('==')[1]] = is_true(c)
-            elif nm.startswith('gt('):
-                cmpv[bound_name(v, p)] = is_true(c)
-        # only the two documented bounds may be compared with the event before it is processed
-        allowed_bounds = {'min(sbbox.max.x,cbbox.max.x)', 'sbbox.max.x'}
-        for k_ in cmpv:
-            if k_ not in allowed_bounds:
-                rep.ob(rule, 'unexpected-early-test:%s' % k_[:60], False,
-                       'before an event is processed the sweep compares it with %s; only `event.x > min(sbbox.max.x, cbbox.max.x)` '
-                       '(Intersection) and `event.x > sbbox.max.x` (Difference) may stop or skip work' % k_,
-                       loc=b.loc(brs[-1][3]) if brs else None, reason='table-row')
-        for op in ('Intersection', 'Difference', 'Union', 'Xor'):
-            # is this path compatible with operation `op`?
-            compat = all((k == op) == val for k, val in opv.items())
-            if not compat:
-                continue
-            if op == 'Intersection':
-                need = 'min(sbbox.max.x,cbbox.max.x)'
-            elif op == 'Difference':
-                need = 'sbbox.max.x'
-            else:
-                need = None
-            if need is None:
-                ok = not exits
-                inst = '%s-never-stops-early' % op
-                msg = 'the sweep stops early for %s' % op
-            else:
-                if need not in cmpv:
-                    other = [k for k in cmpv]
-                    if other and exits:
-                        ok, inst, msg = False, '%s-bound' % op, '%s stops on event.x > %s, must compare with %s' % (op, other, need)
-                    elif exits:
-                        ok, inst, msg = False, '%s-bound' % op, '%s stops without comparing event.x with %s' % (op, need)
-                    else:
-                        ok, inst, msg = False, '%s-bound' % op, '%s never compares event.x with %s on a continuing path' % (op, need)
-                else:
-                    ok = (cmpv[need] == exits)
-                    inst = '%s-break-iff-beyond-%s' % (op, need)
-                    msg = '%s: event.x > %s is %s but the loop %s' % (op, need, cmpv[need], 'exits' if exits else 'continues')
-            if (inst, ok, exits) in seen:
-                continue
-            seen.add((inst, ok, exits))
-            n += 1
-            rep.ob(rule, inst + ('/exit' if exits else '/continue'), ok, msg, loc=b.loc(brs[-1][3]) if brs else None, reason='table-row')
+        exits = (p.end == 'return') and not looked
+        prefixes.append((p, brs, exits, pushed))
         if exits:
             rep.ob(rule, 'event-recorded-before-break', pushed, 'the event at which the sweep stops is not pushed to sorted_events first',
                    loc=b.loc(b.j['line_lo']), reason='dominance')
-    rep.floor(rule, 'break-condition rows', n, 6)
+    n = 0
+    bad_tests = set()
+    results = {}
+    for op in ops:
+        for (ex, s, c) in itertools.product((0, 1, 2), repeat=3):
+            env = {'op': op, 'event.point.x': ex, 'sbbox.max.x': s, 'cbbox.max.x': c}
+            expected = (op == 'Intersection' and ex > min(s, c)) or (op == 'Difference' and ex > s)
+            outcomes = set()
+            for (p, brs, exits, pushed) in prefixes:
+                consistent = True
+                for (nm, cond, val, line) in brs:
+                    try:
+                        if not holds(cond, ev(val, env, p)):
+                            consistent = False
+                            break
+                    except CannotEval as e_:
+                        bad_tests.add((nm[:60], line, str(e_)))
+                        consistent = False
+                        break
+                if consistent:
+                    outcomes.add(exits)
+            key = (op, ex > s, ex > c)
+            r = results.setdefault(key, [expected, set()])
+            r[1] |= outcomes if outcomes else {'no-path'}
+    for (nm, line, why) in sorted(bad_tests):
+        rep.ob(rule, 'unexpected-early-test:%s' % nm, False,
+               'before an event is processed the sweep tests `%s` (%s); only `event.x > min(sbbox.max.x, cbbox.max.x)` (Intersection) and '
+               '`event.x > sbbox.max.x` (Difference) may stop or skip work' % (nm, why), loc=b.loc(line), reason='table-row')
+    for (op, a, c_), (expected, outs) in sorted(results.items()):
+        n += 1
+        if op in ('Intersection', 'Difference'):
+            inst = '%s-bound:beyond-subject=%d,beyond-clipping=%d' % (op, a, c_)
+        else:
+            inst = '%s-never-stops-early:beyond-subject=%d,beyond-clipping=%d' % (op, a, c_)
+        rep.ob(rule, inst, outs == {expected},
+               '%s with event.x > sbbox.max.x = %s and event.x > cbbox.max.x = %s: the sweep must %s, the code %s'
+               % (op, a, c_, 'stop' if expected else 'go on', {True: 'stops', False: 'goes on', 'no-path': 'has no path'} and
+                  sorted('stops' if o is True else 'goes on' if o is False else 'has no consistent path' for o in outs)),
+               loc=b.loc(b.j['line_lo']), reason='table-row')
+    rep.rows_compared += n
+    rep.floor(rule, 'break-condition rows', n, 16)
 
 
 def bound_name(v, p):
